@@ -15,21 +15,60 @@ def _names(prog, adt_path):
     return [f["name"] for f in prog.all_adts[adt_path]["variants"][0]["fields"]]
 
 
+def _struct_of(prog, f):
+    """The crate-local struct a field holds (directly or inside a Cell), or None."""
+    t = prog.ty(f["ty"]) if "ty" in f else {}
+    for _ in range(3):
+        if t.get("k") == "adt" and t.get("def") in ("core::cell::Cell", "core::cell::UnsafeCell", "core::cell::RefCell") and t.get("args"):
+            x = t["args"][0].get("ty")
+            t = prog.ty(x) if x is not None else {}
+        else:
+            break
+    if t.get("k") == "adt" and t.get("local"):
+        a = prog.all_adts.get(t["def"])
+        if a and a["kind"] == "struct":
+            return t["def"]
+    return None
+
+
+def leaf_paths(prog, adt_path=MI, prefix=()):
+    """leaf field name -> index path inside MetricsInner. The counters may be grouped into nested private structs
+    (and `pacing` is one already) without any behaviour changing: a leaf is known by its own name."""
+    out = {}
+    for i, f in enumerate(prog.all_adts[adt_path]["variants"][0]["fields"]):
+        sub = _struct_of(prog, f)
+        if sub:
+            out.update(leaf_paths(prog, sub, prefix + (i,)))
+        else:
+            out[f["name"]] = prefix + (i,)
+    return out
+
+
+def _mk(prog, adt_path):
+    fields = []
+    for f in prog.all_adts[adt_path]["variants"][0]["fields"]:
+        sub = _struct_of(prog, f)
+        fields.append(_mk(prog, sub) if sub else ("sym", f["name"]))
+    return adt(adt_path, 0, fields)
+
+
 def mk_state(prog):
     st = State()
-    pn = _names(prog, PACING)
-    pacing = adt(PACING, 0, [("sym", n) for n in pn])
-    fields = []
-    for n in _names(prog, MI):
-        fields.append(pacing if n == "pacing" else ("sym", n))
-    st.mem[("mi",)] = adt(MI, 0, fields)
+    st.mem[("mi",)] = _mk(prog, MI)
     st.mem[("m",)] = adt("metrics::Metrics", 0, (ref(("mi",), ()),))
     return st
 
 
 def field(prog, st, name):
     v = st.mem[("mi",)]
-    return v[3][_names(prog, MI).index(name)]
+    for i in leaf_paths(prog)[name]:
+        v = v[3][i]
+    return v
+
+
+def leaf_names(prog):
+    pn = set(_names(prog, PACING)) if PACING in prog.all_adts else set()
+    return [n for n in leaf_paths(prog) if n not in pn]
 
 
 def prims():
@@ -143,9 +182,10 @@ def check_formula(chk, prog, for_c10=False):
         v = o.value
         if tg == frozenset("="):
             empty_seen = True
-            if v != ZERO:
+            # "zero for an arena holding no allocations" is C10's clause only
+            if v != ZERO and for_c10:
                 probs.append("an arena holding no allocations reports debt `%s`" % fmt(v))
-            if len(cons) != 1:
+            if len(cons) != 1 and for_c10:
                 probs.append("the empty-arena test is not the first decision of allocation_debt")
             continue
         clamped = v == ZERO or (v[0] == "app" and v[1] == "max" and ZERO in v[2])
@@ -153,7 +193,7 @@ def check_formula(chk, prog, for_c10=False):
             probs.append("a return value is not clamped at zero: `%s`" % fmt(v))
         if v != ZERO:
             main.append(v)
-    if not empty_seen:
+    if not empty_seen and for_c10:
         probs.append("no path returns zero for total_gcs == 0")
     if any(o.kind != "return" for o in allouts):
         bad = [e for o in allouts if o.kind != "return" for e in o.ev if e[0] == "panic"]
@@ -195,54 +235,109 @@ def _pp(p):
     return sorted(("%s%s" % ("+" if s > 0 else ("-" if s < 0 else "?"), ("*" + "*".join(sorted(co))) if co else "")) for (s, co) in p)
 
 
-def check_finish_cycle(chk, prog):
+def finish_cycle_arg_values(prog):
+    """The abstract values the `reset_debt` parameter of Metrics::finish_cycle can take: both booleans, or every
+    variant of a crate-local fieldless enum (a bool may be replaced by a two-variant enum without any behaviour
+    changing). [(label, value)]"""
     fn = "metrics::Metrics::finish_cycle"
-    if not chk.anchor(fn, fn in prog.seed_n):
-        return
+    b = prog.bodies[prog.seed_n[fn][0]]
+    t = prog.ty(b["locals"][2]) if len(b["locals"]) > 2 else {}
+    if t.get("k") == "adt" and t.get("local"):
+        a = prog.all_adts.get(t["def"])
+        if a and a["kind"] == "enum" and not any(v["fields"] for v in a["variants"]):
+            return [(v["name"], adt(t["def"], i, ())) for i, v in enumerate(a["variants"])]
+    return [("true", I(1)), ("false", I(0))]
+
+
+_fc_cache = {}
+
+
+def finish_cycle_outcomes(prog, val):
+    """(mode, problems, sample) for finish_cycle called with argument `val`. mode is 'reset' when the call forgets
+    the outstanding debt (artificial debt 0 on every path) and 'carry' when it takes the outstanding allocation debt
+    over into the next cycle; the problems are those of the better fitting reading."""
+    key = (id(prog), val)
+    if key in _fc_cache:
+        return _fc_cache[key]
+    fn = "metrics::Metrics::finish_cycle"
     ip = interp_for(prog)
     ZERO = ("f", 0.0)
-    # the values allocation_debt() may return when evaluated on the state in which finish_cycle is entered
     try:
         allowed_carry = {o.value for o in debt_outcomes(prog)[0]}
     except (interp.Unmodelled, interp.InterpError):
         allowed_carry = None
-    for reset in (1, 0):
-        st = mk_state(prog)
-        try:
-            outs = [o for o in ip.run(prog.seed_n[fn][0], [ref(("m",), ()), I(reset)], st) if o.kind == "return"]
-        except (interp.Unmodelled, interp.InterpError) as e:
-            chk.inst("finish_cycle-shape", "%s(reset_debt=%d)" % (fn, reset), False, detail="could not be analysed: %s" % e)
-            continue
-        probs = []
-        if not outs:
-            probs.append("no normal outcome")
-        for o in outs:
-            for c in CYCLE_COUNTERS:
-                if field(prog, o.st, c) not in (I(0),):
-                    probs.append("cycle counter `%s` is not reset (left as %s): work of the finished cycle pays debt of "
-                                 "the next one" % (c, fmt(field(prog, o.st, c))))
-            w = field(prog, o.st, "wakeup_amount")
-            want_a = ("app", "Mul", (("app", "as_f64", (("sym", "remembered_gcs"),)), ("sym", "sleep_factor")))
-            want_a2 = ("app", "Mul", (("sym", "sleep_factor"), ("app", "as_f64", (("sym", "remembered_gcs"),))))
-            want_b = ("app", "as_f64", (("sym", "min_sleep"),))
-            ok_w = w[0] == "app" and w[1] == "max" and set(w[2]) in ({want_a, want_b}, {want_a2, want_b})
-            if not ok_w:
-                probs.append("wake-up amount is `%s`, specification says max(remembered * sleep_factor, min_sleep)" % fmt(w))
-            a = field(prog, o.st, "artificial_debt")
-            if reset:
-                if a != ZERO:
-                    probs.append("debt is carried over (`%s`) although an atomic full cycle was performed" % fmt(a))
-            else:
-                if a == ("sym", "artificial_debt") or (a != ZERO and not (a[0] == "app" and a[1] == "max")):
-                    probs.append("carried-over debt is `%s`, specification says the (clamped) outstanding allocation debt" % fmt(a))
-                elif allowed_carry is not None and a not in allowed_carry:
-                    probs.append("carried-over debt `%s` is not the allocation debt of the cycle that just finished (it is "
-                                 "computed after the cycle's own wake-up amount / counters were already replaced)" % fmt(a)[:300])
-            for keep in ("total_gcs",):
-                if field(prog, o.st, keep) != ("sym", keep):
-                    probs.append("finish_cycle changed %s" % keep)
-        chk.inst("finish_cycle-shape", "finish_cycle(reset_debt=%d)" % reset, not probs, detail="; ".join(sorted(set(probs))[:3]),
-                 sample={"reset_debt": reset, "wakeup_amount": fmt(field(prog, outs[0].st, "wakeup_amount")) if outs else None})
+    st = mk_state(prog)
+    try:
+        outs = [o for o in ip.run(prog.seed_n[fn][0], [ref(("m",), ()), val], st) if o.kind == "return"]
+    except (interp.Unmodelled, interp.InterpError) as e:
+        r = (None, ["could not be analysed: %s" % e], None)
+        _fc_cache[key] = r
+        return r
+    common = []
+    as_reset = []
+    as_carry = []
+    if not outs:
+        common.append("no normal outcome")
+    for o in outs:
+        for c in CYCLE_COUNTERS:
+            if field(prog, o.st, c) not in (I(0),):
+                common.append("cycle counter `%s` is not reset (left as %s): work of the finished cycle pays debt of "
+                              "the next one" % (c, fmt(field(prog, o.st, c))))
+        w = field(prog, o.st, "wakeup_amount")
+        want_a = ("app", "Mul", (("app", "as_f64", (("sym", "remembered_gcs"),)), ("sym", "sleep_factor")))
+        want_a2 = ("app", "Mul", (("sym", "sleep_factor"), ("app", "as_f64", (("sym", "remembered_gcs"),))))
+        want_b = ("app", "as_f64", (("sym", "min_sleep"),))
+        ok_w = w[0] == "app" and w[1] == "max" and set(w[2]) in ({want_a, want_b}, {want_a2, want_b})
+        if not ok_w:
+            common.append("wake-up amount is `%s`, specification says max(remembered * sleep_factor, min_sleep)" % fmt(w))
+        a = field(prog, o.st, "artificial_debt")
+        if a != ZERO:
+            as_reset.append("debt is carried over (`%s`) although an atomic full cycle was performed" % fmt(a))
+        if a == ("sym", "artificial_debt") or (a != ZERO and not (a[0] == "app" and a[1] == "max")):
+            as_carry.append("carried-over debt is `%s`, specification says the (clamped) outstanding allocation debt" % fmt(a))
+        elif allowed_carry is not None and a not in allowed_carry:
+            as_carry.append("carried-over debt `%s` is not the allocation debt of the cycle that just finished (it is "
+                            "computed after the cycle's own wake-up amount / counters were already replaced)" % fmt(a)[:300])
+        for keep in ("total_gcs",):
+            if field(prog, o.st, keep) != ("sym", keep):
+                common.append("finish_cycle changed %s" % keep)
+    all_zero = bool(outs) and all(field(prog, o.st, "artificial_debt") == ZERO for o in outs)
+    mode = "reset" if all_zero else "carry"
+    sample = fmt(field(prog, outs[0].st, "wakeup_amount")) if outs else None
+    r = (mode, common + (as_reset if mode == "reset" else as_carry), sample)
+    _fc_cache[key] = r
+    return r
+
+
+def finish_cycle_mode(prog, val):
+    """1 = this argument makes finish_cycle forget the debt, 0 = carry it over, '?' = undecidable."""
+    try:
+        mode = finish_cycle_outcomes(prog, val)[0]
+    except Exception:
+        return "?"
+    return {"reset": 1, "carry": 0}.get(mode, "?")
+
+
+def check_finish_cycle(chk, prog):
+    fn = "metrics::Metrics::finish_cycle"
+    if not chk.anchor(fn, fn in prog.seed_n):
+        return
+    vals = finish_cycle_arg_values(prog)
+    modes = {}
+    for label, val in vals:
+        mode, probs, sample = finish_cycle_outcomes(prog, val)
+        modes[label] = mode
+        # instance keys keep the historical names for the boolean form
+        name = "finish_cycle(reset_debt=%s)" % ({"true": "1", "false": "0"}.get(label, label))
+        if label == "true" and mode != "reset":
+            # the boolean parameter is called reset_debt: `true` is specified to forget the debt
+            mode, probs = "reset", [p_ for p_ in probs] + ["finish_cycle(reset_debt = true) does not forget the outstanding debt"]
+        chk.inst("finish_cycle-shape", name, not probs, detail="; ".join(sorted(set(probs))[:3]),
+                 sample={"argument": label, "reading": mode, "wakeup_amount": sample})
+    if len(vals) >= 2 and set(modes.values()) != {"reset", "carry"}:
+        chk.inst("finish_cycle-shape", "finish_cycle(modes)", False,
+                 detail="finish_cycle must be able both to forget the debt (after an atomic full cycle) and to carry it over; "
+                        "its argument values behave as %s" % modes)
 
 
 def check_helpers(chk, prog):
@@ -256,7 +351,7 @@ def check_helpers(chk, prog):
         "mark_gc_untraced": {"traced_gcs": "Sub"},
         "mark_gc_remembered": {"remembered_gcs": "Add"},
     }
-    names = _names(prog, MI)
+    names = leaf_names(prog)
     for h, want in spec.items():
         fn = "metrics::Metrics::" + h
         if not chk.anchor(fn, fn in prog.seed_n):
